@@ -258,7 +258,8 @@ MODEL_OPS = ("simulate", "remove_absence", "insert_absence", "reverse_log", "bac
 
 def applicable(case):
     """cases the model covers: sequences of simulate / remove_absence / insert_absence operations"""
-    return all(op["op"] in MODEL_OPS for op in case["ops"])
+    # the model fixes unit_time = 1 (DESIGN S.4)
+    return all(op["op"] in MODEL_OPS and op.get("unit_time", 1) == 1 for op in case["ops"])
 
 
 def canon_none(d):
